@@ -13,6 +13,7 @@ IM = 'rnacos::naming::model::Instance::'
 def run(ck, fb):
     _run0(ck, fb)
     r13e(ck, fb)
+    r13f(ck, fb)
 
 
 def _run0(ck, fb):
@@ -240,3 +241,37 @@ def r13e(ck, fb):
                'the incoming instance takes %s from the stored record: a heartbeat that arrives after the instance was marked unhealthy no longer '
                'makes it healthy again (it stays listed unhealthy while heart-beating), and because an already-unhealthy instance is not queued for '
                'removal again it is never removed once the stale removal entry has been skipped' % sorted(set(x[1] for x in bad)))
+
+
+def r13f(ck, fb):
+    ck.rule('R13f', 'take-over arms a clock that can fire: Service::do_refresh_process_range puts instances that came from another node '
+                    '(is_from_cluster()) into healthy_timeout_set, and Service::time_check drops every drained key whose instance is not '
+                    'is_enable_timeout() (= ephemeral && !from_grpc && !is_from_cluster()). The two agree only if the take-over also makes the '
+                    'instance local (assigns from_cluster = 0 to what it arms); otherwise the entry is consumed and skipped and the instance of a '
+                    'dead owner is never marked unhealthy or removed')
+    b = ck.body(SV + 'do_refresh_process_range', 'R13f')
+    t = ck.body(SV + 'time_check', 'R13f')
+    if not b or not t:
+        return
+    region = util.region(fb, b)
+    adds = [(x, s) for x in region for s in util.mut_calls_on_field(x, 'healthy_timeout_set', r'::add$')]
+    ck.floor('R13f', 'healthy_timeout_set.add in do_refresh_process_range', len(adds), 1)
+    # the drain side really re-validates with is_enable_timeout
+    reval = t.calls(re.escape(IM) + r'is_enable_timeout$')
+    ck.require(len(reval) >= 1, 'R13f', 'time_check:revalidates', t.where(), 'time_check no longer re-validates drained keys with is_enable_timeout')
+    sel_cluster = any(x.calls(re.escape(IM) + r'is_from_cluster$') for x in region)
+    clears = []
+    for x in region:
+        for (i, j, st) in x.stmts():
+            d = st.get('d')
+            if isinstance(d, dict):
+                from rn.facts import pl_proj
+                fs = [e.get('f') for e in pl_proj(d) if isinstance(e, dict) and 'f' in e]
+                rv = st.get('rv') or {}
+                if fs[-1:] == ['from_cluster'] and rv.get('k') == 'use' and 'c' in rv.get('op', {}) and str(rv['op']['c'].get('v')) == '0':
+                    clears.append((x, i))
+    ok = bool(clears) or not sel_cluster
+    ck.require(ok, 'R13f', 'do_refresh_process_range:takes-ownership', b.where(),
+               'do_refresh_process_range arms the health clock for instances selected by is_from_cluster() but leaves from_cluster set: '
+               'time_check consumes the entry and skips it (is_enable_timeout() is false), so an HTTP instance whose owner node died is never '
+               'expired by the node that took its service over', 'from_cluster = 0 for what is armed')
